@@ -70,77 +70,63 @@ Proof. induction a as [|c a IH]; intros H; cbn [app makeword].
     rewrite IH; [reflexivity|]. intros I. apply H. right. exact I. Qed.
 
 (* ---------------- the reference search on the value buffer ---------------- *)
-Lemma rd_at pre c r : rd (pre ++ c :: r) (length pre) = Ok c.
-Proof. unfold rd. rewrite nth_error_app2 by lia. replace (length pre - length pre)%nat with 0%nat by lia. reflexivity. Qed.
-Lemma rd_at1 pre c d r : rd (pre ++ c :: d :: r) (S (length pre)) = Ok d.
-Proof. unfold rd. rewrite nth_error_app2 by lia. replace (S (length pre) - length pre)%nat with 1%nat by lia. reflexivity. Qed.
-Lemma snoc_app {A} (pre : list A) c r : pre ++ c :: r = (pre ++ [c]) ++ r.
-Proof. rewrite <- app_assoc. reflexivity. Qed.
-Lemma snoc_length {A} (pre : list A) c : length (pre ++ [c]) = S (length pre).
-Proof. rewrite app_length. simpl. lia. Qed.
+Lemma rd0 c r : rd (c :: r) 0 = Ok c. Proof. reflexivity. Qed.
+Lemma rd1 c d r : rd (c :: d :: r) 1 = Ok d. Proof. reflexivity. Qed.
 
 Lemma refc_facts c : refc c = true -> (c =? 0) = false /\ (c =? QCONF_VAR) = false /\ (c =? QCONF_VAR_OPEN) = false /\ (c =? QCONF_VAR_CLOSE) = false.
 Proof. unfold refc, linec, QCONF_VAR, QCONF_VAR_OPEN, QCONF_VAR_CLOSE. rewrite !andb_true_iff, !negb_true_iff. tauto. Qed.
 Lemma nodollar_facts c : (negb (c =? 36) && negb (c =? 0)) = true -> (c =? 0) = false /\ (c =? QCONF_VAR) = false.
 Proof. unfold QCONF_VAR. rewrite !andb_true_iff, !negb_true_iff. tauto. Qed.
 
-Lemma scan_e_name rest : forall nm fuel pre, forallb refc nm = true -> (length nm < fuel)%nat ->
-  scan_e fuel (pre ++ nm ++ 125 :: rest) (length pre) 1 = Ok (EClose (length pre + length nm)).
-Proof. induction nm as [|c nm IH]; intros fuel pre H Hf; (destruct fuel as [|f]; [simpl in Hf; lia|]); cbn [scan_e app].
-  - rewrite rd_at. cbn [bind]. replace (length pre + length (@nil N))%nat with (length pre) by (simpl; lia). reflexivity.
+Lemma scan_e_name rest : forall nm fuel e, forallb refc nm = true -> (length nm < fuel)%nat ->
+  scan_e fuel (nm ++ 125 :: rest) e 1 = Ok (EClose (e + length nm) (125 :: rest)).
+Proof. induction nm as [|c nm IH]; intros fuel e H Hf; (destruct fuel as [|f]; [simpl in Hf; lia|]); cbn [scan_e app].
+  - rewrite rd0. cbn [bind]. replace (e + length (@nil N))%nat with e by (simpl; lia). reflexivity.
   - cbn [forallb] in H. apply andb_true_iff in H as [Hc H]. destruct (refc_facts c Hc) as (E0 & E1 & E2 & E3).
-    rewrite rd_at. cbn [bind]. rewrite E0, E1, E2, E3. rewrite snoc_app, <- snoc_length with (c := c).
-    rewrite IH by (auto; simpl in Hf; lia). rewrite snoc_length. cbn [length]. f_equal. f_equal. lia. Qed.
+    rewrite rd0. cbn [bind tl]. rewrite E0, E1, E2, E3. rewrite IH by (auto; simpl in Hf; lia). cbn [length]. f_equal. f_equal. lia. Qed.
 
 Definition VO : list N := [36; 123].
 Lemma skipn_app_len {A} (a b : list A) : skipn (length a) (a ++ b) = b.
 Proof. induction a; [reflexivity|exact IHa]. Qed.
+Lemma firstn_app_len {A} (a b : list A) : firstn (length a) (a ++ b) = a.
+Proof. induction a; [reflexivity|]. cbn [length app firstn]. f_equal. exact IHa. Qed.
 Section Expand.
 Variable env : list N -> option (list N).
 Variable cmd : list N -> option (list N).
 
-Lemma find_buf_none fuel0 t : forall v fuel pre, nodollar v = true -> (length v < fuel)%nat ->
-  find_buf env cmd fuel fuel0 t (pre ++ v ++ [0]) (length pre) = Ok None.
-Proof. induction v as [|c v IH]; intros fuel pre H Hf; (destruct fuel as [|f]; [simpl in Hf; lia|]); cbn [find_buf app].
-  - rewrite rd_at. reflexivity.
+Lemma find_buf_none fuel0 t : forall v fuel s, nodollar v = true -> (length v < fuel)%nat ->
+  find_buf env cmd fuel fuel0 t (v ++ [0]) s = Ok None.
+Proof. induction v as [|c v IH]; intros fuel s H Hf; (destruct fuel as [|f]; [simpl in Hf; lia|]); cbn [find_buf app].
+  - rewrite rd0. reflexivity.
   - unfold nodollar in H. cbn [forallb] in H. apply andb_true_iff in H as [Hc H]. destruct (nodollar_facts c Hc) as (E0 & E1).
-    rewrite rd_at. cbn [bind]. rewrite E0, E1. cbn [negb]. rewrite snoc_app, <- snoc_length with (c := c).
-    apply IH; [exact H|simpl in Hf; lia]. Qed.
-
-Lemma sub_at (pre nm rest : list N) : sub (pre ++ nm ++ rest) (length pre) (length nm) = nm.
-Proof. unfold sub. rewrite skipn_app, skipn_all, Nat.sub_diag. cbn [skipn app]. rewrite firstn_app, firstn_all, Nat.sub_diag. cbn [firstn]. apply app_nil_r. Qed.
+    rewrite rd0. cbn [bind tl]. rewrite E0, E1. cbn [negb]. apply IH; [exact H|simpl in Hf; lia]. Qed.
 
 Lemma find_ref fuel0 t nm new rest : forallb refc nm = true -> (length nm < fuel0)%nat -> resolve env cmd t nm = Some new ->
-  forall done fuel pre, nodollar done = true -> (length done < fuel)%nat ->
-  find_buf env cmd fuel fuel0 t (pre ++ done ++ 36 :: 123 :: nm ++ 125 :: rest) (length pre) =
-    Ok (Some ((length pre + length done)%nat, (length pre + length done + 2 + length nm)%nat, new)).
-Proof. intros Hn H0 R. induction done as [|c done IH]; intros fuel pre H Hf; (destruct fuel as [|f]; [simpl in Hf; lia|]); cbn [find_buf app].
-  - rewrite rd_at. cbn [bind]. change (36 =? 0) with false. change (negb (36 =? QCONF_VAR)) with false. cbv iota.
-    rewrite rd_at1. cbn [bind]. change (negb (123 =? QCONF_VAR_OPEN)) with false. cbv iota.
-    replace (pre ++ 36 :: 123 :: nm ++ 125 :: rest) with ((pre ++ VO) ++ nm ++ 125 :: rest) by (unfold VO; rewrite <- app_assoc; reflexivity).
-    replace (S (S (length pre))) with (length (pre ++ VO)) by (unfold VO; rewrite app_length; simpl; lia).
+  forall done fuel s, nodollar done = true -> (length done < fuel)%nat ->
+  find_buf env cmd fuel fuel0 t (done ++ 36 :: 123 :: nm ++ 125 :: rest) s =
+    Ok (Some ((s + length done)%nat, (s + length done + 2 + length nm)%nat, new)).
+Proof. intros Hn H0 R. induction done as [|c done IH]; intros fuel s H Hf; (destruct fuel as [|f]; [simpl in Hf; lia|]); cbn [find_buf app].
+  - rewrite rd0. cbn [bind]. change (36 =? 0) with false. change (negb (36 =? QCONF_VAR)) with false. cbv iota.
+    rewrite rd1. cbn [bind tl]. change (negb (123 =? QCONF_VAR_OPEN)) with false. cbv iota.
     rewrite scan_e_name by auto. cbn [bind].
-    replace (length (pre ++ VO) + length nm - length pre - 2)%nat with (length nm) by (unfold VO; rewrite app_length; simpl; lia).
-    rewrite (sub_at (pre ++ VO) nm (125 :: rest)), R. unfold VO. rewrite app_length. cbn [length]. do 3 f_equal. f_equal; lia.
+    replace (S (S s) + length nm - s - 2)%nat with (length nm) by lia. rewrite firstn_app_len, R. cbn [length]. do 3 f_equal. f_equal; lia.
   - unfold nodollar in H. cbn [forallb] in H. apply andb_true_iff in H as [Hc H]. destruct (nodollar_facts c Hc) as (E0 & E1).
-    rewrite rd_at. cbn [bind]. rewrite E0, E1. cbn [negb]. rewrite snoc_app, <- snoc_length with (c := c).
-    rewrite IH by (auto; simpl in Hf; lia). rewrite snoc_length. cbn [length]. do 3 f_equal. f_equal; lia. Qed.
+    rewrite rd0. cbn [bind tl]. rewrite E0, E1. cbn [negb]. rewrite IH by (auto; simpl in Hf; lia). cbn [length]. do 3 f_equal. f_equal; lia. Qed.
 
 (* one round on a value without references: nothing to do; on  done ${nm} rest : the reference is replaced *)
 Lemma round_none t v : nodollar v = true -> round env cmd t v = Ok None.
-Proof. intros H. unfold round. rewrite (find_buf_none _ t v _ [] H) by lia. reflexivity. Qed.
+Proof. intros H. unfold round. rewrite (find_buf_none _ t v _ 0%nat H) by lia. reflexivity. Qed.
 Lemma round_ref t done nm new rest : nodollar done = true -> forallb refc nm = true -> resolve env cmd t nm = Some new ->
   round env cmd t (done ++ 36 :: 123 :: nm ++ 125 :: rest) = Ok (Some (done ++ new ++ rest)).
 Proof. intros Hd Hn R. unfold round. remember (done ++ 36 :: 123 :: nm ++ 125 :: rest) as value eqn:EV.
   assert (L : length value = (length done + 2 + length nm + 1 + length rest)%nat).
   { subst value. rewrite app_length. cbn [length]. rewrite app_length. cbn [length]. lia. }
-  assert (EB : value ++ [0] = [] ++ done ++ 36 :: 123 :: nm ++ 125 :: (rest ++ [0])).
-  { subst value. cbn [app]. rewrite <- app_assoc. cbn [app]. rewrite <- app_assoc. reflexivity. }
+  assert (EB : value ++ [0] = done ++ 36 :: 123 :: nm ++ 125 :: (rest ++ [0])).
+  { subst value. rewrite <- app_assoc. cbn [app]. rewrite <- app_assoc. reflexivity. }
   rewrite EB.
-  pose proof (find_ref (S (length value)) t nm new (rest ++ [0]) Hn ltac:(lia) R done (S (length value)) [] Hd ltac:(lia)) as F.
-  change (length (@nil N)) with 0%nat in F. rewrite F. clear F EB.
+  rewrite (find_ref (S (length value)) t nm new (rest ++ [0]) Hn ltac:(lia) R done (S (length value)) 0%nat Hd ltac:(lia)). clear EB.
   cbn [bind Nat.add]. f_equal. f_equal. subst value.
-  rewrite firstn_app, firstn_all, Nat.sub_diag. cbn [firstn]. rewrite app_nil_r. f_equal. f_equal.
+  rewrite firstn_app_len. f_equal. f_equal.
   replace (S (length done + 2 + length nm)) with (length done + (3 + length nm))%nat by lia.
   rewrite skipn_app, skipn_all2 by lia. replace (length done + (3 + length nm) - length done)%nat with (3 + length nm)%nat by lia.
   replace (36 :: 123 :: nm ++ 125 :: rest) with ((36 :: 123 :: nm ++ [125]) ++ rest) by (cbn [app]; rewrite <- app_assoc; reflexivity).
